@@ -42,7 +42,7 @@ META = {
     "engines": ["E-FS (forksym): symbolic characters through the real header mapping / cookie escaper; live translation table as ITE terms"],
     "stubs": ["baize.datastructures._cookie_is_legal_key -> the same bound method (fullmatch/match/...) of the same pattern text re-compiled through ReShim",
               "baize.responses.quote -> percent-encoding model over symbolic characters taking the REAL `safe` argument baize passes "
-              "(ASCII exact; a non-ASCII char becomes 1-4 '%XX' groups); validated against urllib.parse.quote on every path's model",
+              "(ASCII exact; every other char becomes 1-4 '%XX' groups whose hex digits are stand-ins); the real quote runs in every path's concrete replay",
               "header-mapping keys are proxies with a constant hash (dict compares them through the solver)"],
     "assumptions": ["headers family: the pre-state mapping is clean (it was built through the checked mutators: that is the induction hypothesis)",
                     "constructor arguments (headers=...) are outside the property, which speaks of the mutating operations"],
@@ -356,12 +356,10 @@ def quote_model(string, safe="/", encoding=None, errors=None):
         if in_range(c, 0xD800, 0xDFFF):
             raise UnicodeEncodeError("utf-8", "\ud800", 0, 1, "surrogates not allowed")
         nbytes = 1 if in_range(c, 0, 0x7F) else 2 if in_range(c, 0x80, 0x7FF) else 3 if in_range(c, 0x800, 0xFFFF) else 4
+        # each UTF-8 byte becomes '%' + two upper-case hex digits; the digits are written as the stand-in 'X' (class-correct:
+        # visible ASCII; their exact value is not modelled and no check here depends on it)
         for _ in range(nbytes):
-            out.append(37)
-            for _h in range(2):
-                hx = e.fresh("hex", 48, 70)
-                e.assume(z3.Or(hx.e <= 57, hx.e >= 65))
-                out.append(hx)
+            out.extend((37, 88, 88))
     return SStr(out)
 
 
